@@ -157,7 +157,7 @@ PROPS = {
     ),
     "C12": dict(
         module="Evl.Props.C12",
-        theorems=["Evl.C12.flat_step", "Evl.C12.flat_progress", "Evl.C12.w_reentry_deadlocks", "Evl.C12.r_reentry_deadlocks_with_writer", "Evl.C12.on_source"],
+        theorems=["Evl.C12.flat_step", "Evl.C12.flat_progress", "Evl.C12.w_reentry_deadlocks", "Evl.C12.r_reentry_deadlocks_with_writer", "Evl.C12.on_source", "Evl.NodeClose.close_returns", "Evl.NodeClose.close_on_source"],
         runs=[dict(model="reentry", sub="reentry", driver=None, use_corpus=False, quick=[], thorough=["-rounds", "20"], search=["-rounds", "5"])],
         oracle_prefixes=["C12"], models=["M3 Locks", "Generated.LockSites"],
         trusted_base=TB_COMMON + ["gofacts translator: Evl/Generated/LockSites.lean is regenerated from /repo on every run"],
@@ -184,7 +184,8 @@ PROPS = {
     "C06": dict(
         module="Evl.Props.C06",
         theorems=["Evl.C06.refs_eq_listing", "Evl.C06.inUse_iff", "Evl.C06.listed_registered", "Evl.C06.removeNode_inUse",
-                  "Evl.C06.removeNode_free", "Evl.C06.rpan_effect", "Evl.C06.close_once"],
+                  "Evl.C06.removeNode_free", "Evl.C06.rpan_effect", "Evl.C06.close_once",
+                  "Evl.NodeClose.close_spec", "Evl.NodeClose.closes_registered_node", "Evl.NodeClose.close_on_source"],
         runs=[REGISTRY_RUN, race_run("typehook", 6, 60, 20)], oracle_prefixes=["C06"], models=["M1 Registry"],
         trusted_base=TB_COMMON, assumptions=M1_ASSUME, rule=M1_RULE,
     ),
